@@ -185,7 +185,20 @@ func verifC09Read(args []vsx, raw bool) vsx {
 	if src.tail == 1 {
 		timeout = verifStallTimeout
 	}
-	measure := maxSize >= 65536
+	// Allocation probe for "a length above the limit is rejected before allocating it".
+	// It is evaluated ONLY for a stream whose first invalid frame announces a length ABOVE the
+	// limit (verifC09FirstOversize, computed from the case data alone, not from what the code
+	// returned): a length equal to or below the limit may be allocated up front by the code
+	// (read() does make([]byte, numBytes)), the property does not forbid that.  Every frame in
+	// front of the oversize one is complete, so everything legitimately allocated is bounded by
+	// a small multiple of the bytes received.  MemStats.TotalAlloc is the cumulative number of
+	// heap bytes allocated (monotone, exact after ReadMemStats, not changed by GC cycles), no
+	// other goroutine of the test binary is running during a c09.raw/c09.read case, and the
+	// probe only fires when the announced length itself exceeds budget + 1 MiB, so that GC
+	// timing or runtime bookkeeping cannot raise it.
+	over, announced := verifC09FirstOversize(src.data, maxSize)
+	budget := uint64(8*len(src.data) + (1 << 20))
+	measure := over && uint64(announced) > budget+(1<<20)
 	var before runtime.MemStats
 	if measure {
 		runtime.ReadMemStats(&before)
@@ -194,11 +207,28 @@ func verifC09Read(args []vsx, raw bool) vsx {
 	if measure {
 		var after runtime.MemStats
 		runtime.ReadMemStats(&after)
-		if after.TotalAlloc-before.TotalAlloc > uint64(8*len(src.data)+(4<<20)) {
-			return vErr("allocated-far-more-than-received")
+		if after.TotalAlloc-before.TotalAlloc > budget {
+			return vErr("oversize-length-allocated-before-rejected")
 		}
 	}
 	return res
+}
+
+// verifC09FirstOversize walks the frames of data: true (and the announced length) iff the walk
+// reaches, through complete frames whose length is within the limit, a complete 4-byte prefix
+// announcing more than the limit.
+func verifC09FirstOversize(data []byte, maxSize int) (bool, int) {
+	for len(data) >= 4 {
+		size := int(data[0])<<24 | int(data[1])<<16 | int(data[2])<<8 | int(data[3])
+		if size > maxSize {
+			return true, size
+		}
+		if len(data)-4 < size {
+			return false, 0
+		}
+		data = data[4+size:]
+	}
+	return false, 0
 }
 
 // ((max data sched eager) ...): stalled peers, evaluated concurrently so that a generous timeout costs nothing
